@@ -15,6 +15,8 @@
 (*                     (breaks the liveness property ShutdownCompletes)                *)
 (*   "pollOnlyOnTimeout" the accept loop polls its context only after an Accept that   *)
 (*                     timed out (breaks PollsContextBetweenAccepts)                   *)
+(*   "serveOnAfterCancel" the connection loop goes on reading under a cancelled context *)
+(*                     (breaks PollsContextBetweenReads)                               *)
 (*   "peerNeverReads"  environment, not implementation: a peer that never reads its    *)
 (*                     replies blocks the handler's write for ever (no write deadline  *)
 (*                     exists) - ShutdownCompletes needs peers that read               *)
@@ -128,7 +130,7 @@ Start(c) == /\ cs[c] = "spawned" /\ gate[c] /\ ~(D("lookupDiesOnCancel") /\ ctx 
             /\ gWg' = IF D("addInGoroutine") THEN gWg + 1 ELSE gWg
             /\ UNCHANGED << ctx, acc, lis, offered, armed, inp, gate, hgate, pset, npk, sched >>
 LoopTop(c) == /\ cs[c] = "loop"
-              /\ IF ctx = "cancelled" THEN cs' = [cs EXCEPT ![c] = "exit"] /\ UNCHANGED armed
+              /\ IF ctx = "cancelled" /\ ~D("serveOnAfterCancel") THEN cs' = [cs EXCEPT ![c] = "exit"] /\ UNCHANGED armed
                  ELSE cs' = [cs EXCEPT ![c] = "read"] /\ armed' = [armed EXCEPT ![c] = ~D("noDeadline")]
               /\ UNCHANGED << ctx, acc, lis, offered, inp, gate, hgate, wg, gAcc, gWg, pset, npk, sched >>
 ReadDone(c) == /\ cs[c] = "read" /\ inp[c] \in {"packet", "eof"}
@@ -179,6 +181,11 @@ AtRestWhenIdle == (\A c \in Conns : cs[c] \in {"none", "done"}) => (gWg = 0 /\ g
 PollsContextBetweenAccepts ==
    [][ /\ (ctx = "cancelled" /\ (\E c \in Conns : cs[c] # "spawned" /\ cs'[c] = "spawned")) => acc' = "poll"
        /\ (ctx = "cancelled" /\ acc = "poll" /\ acc' # "poll") => acc' = "closing" ]_vars
+\* the connection loop polls the context before every read: under a cancelled context a connection goroutine at the top of its
+\* loop leaves (the read that was already blocked may still deliver one request) - otherwise a client that keeps sending keeps
+\* its connection, and Serve, alive for ever. Defect switch "serveOnAfterCancel" (a "graceful drain") as control.
+PollsContextBetweenReads ==
+   [][ \A c \in Conns : (ctx = "cancelled" /\ cs[c] = "loop" /\ cs'[c] # "loop") => cs'[c] = "exit" ]_vars
 \* once cancelled, Serve returns (blocked reads reach their deadline, gates open)
 ShutdownCompletes == (ctx = "cancelled") ~> (acc = "returned")
 
